@@ -24,6 +24,11 @@ theorem pool_mutations_locked : ∀ m ∈ Gen.poolMutations, m.2.2 = true := by 
 not established yet, exactly one establishes it; the others find it established (or failed) when they get the lock. -/
 theorem establishment_single : ∀ r ∈ Gen.establishChecks, r.2 = true := by decide
 
+/-- **C08.reader_rechecks_under_lock** (also C12) - the HTTP/2 reader decides "nothing has been filed for my stream, read the
+network" *inside* the read lock, and reads the network nowhere else: a thread / task that waited for the lock while another one read
+and filed its frames sees them, instead of reading again and waiting for bytes that have already arrived (Tie A, regenerated). -/
+theorem reader_rechecks_under_lock : Gen.h2EventsRecheckedUnderReadLock = true := by decide
+
 example : Gen.establishChecks.length = 3 := by decide
 
 /-- **C08.limit_under_threads** — the connection limit holds after a pass even if every status bit a pass reads
